@@ -327,7 +327,7 @@ func (s *c02TreeSys) invariants() (viol []mc.Violation) {
 			s.count("scaled_min_comparisons")
 			if a, b := c01FromRL(ls.AutoScaleMin), c01FromRL(fs.AutoScaleMin); a != b {
 				viol = append(viol, mc.Violation{Key: "C02|tree|scaled-min-differs-from-fresh|after:" + after,
-					What: fmt.Sprintf("[%s] after settling, the scaled min reported for %s is %v on the incrementally maintained manager but %v on a fresh manager built from the same final objects (declared min %v; settled runtimes live %v, fresh %v)", s.cfg.name, qn, a, b, s.quotas[qn].Min.milli(), rt, want)})
+					What: fmt.Sprintf("[%s] after settling, the scaled min reported for %s is %v on the incrementally maintained manager but %v on a fresh manager built from the same final objects (declared min %v; settled runtimes live %v, fresh %v)", s.cfg.name, qn, a, b, s.quotas[qn].Min.nonneg().milli(), rt, want)})
 			}
 		}
 	}
@@ -371,7 +371,7 @@ func (s *c02TreeSys) clauses(g *GroupQuotaManager, rt map[string]c01Vec, live []
 		unsatisfied := [2]bool{}
 		scalable := true
 		for _, k := range kids {
-			sumMin = sumMin.add(s.quotas[k].Min.milli())
+			sumMin = sumMin.add(s.quotas[k].Min.nonneg().milli())
 			if !g.scaleMinQuotaManager.quotaEnableMinQuotaScaleMap[k] {
 				scalable = false
 			}
@@ -379,7 +379,7 @@ func (s *c02TreeSys) clauses(g *GroupQuotaManager, rt map[string]c01Vec, live []
 		for _, k := range kids {
 			q := s.quotas[k]
 			req := obs[k].request.min(q.Max.milli()) // the request a quota passes upwards is max-limited
-			min := q.Min.milli()
+			min := q.Min.nonneg().milli()
 			for d := 0; d < 2; d++ {
 				lo, hi := req[d], min[d]
 				if lo > hi {
@@ -499,7 +499,10 @@ func TestVerifC02Tree(t *testing.T) {
 	root := extension.RootQuotaName
 	tree := map[string][]c01QSpec{
 		"P": {{"P", root, true, true, c01Vec{8, 8}, c01Vec{4, 4}}, {"P", root, true, true, c01Vec{6, 6}, c01Vec{2, 2}}},
-		"A": {{"A", "P", false, true, c01Vec{6, 6}, c01Vec{2, 2}}, {"A", "P", false, false, c01Vec{4, 4}, c01Vec{3, 1}}},
+		"A": {{"A", "P", false, true, c01Vec{6, 6}, c01Vec{2, 2}}, {"A", "P", false, false, c01Vec{4, 4}, c01Vec{3, 1}},
+			// ... the same non-lending quota whose min no longer declares memory at all (max still does): the request that was
+			// raised to min loses that dimension (seed C02-8)
+			{"A", "P", false, false, c01Vec{4, 4}, c01Vec{3, -1}}},
 		"B": {{"B", "P", false, true, c01Vec{8, 4}, c01Vec{1, 1}}, {"B", "P", false, true, c01Vec{3, 3}, c01Vec{0, 0}}},
 		"C": {{"C", root, false, true, c01Vec{8, 8}, c01Vec{2, 2}}},
 	}
